@@ -25,6 +25,7 @@ const prelude = `(set-option :produce-models true)
 (define-fun nilslice () Slice (mk-slice 0 0 0 0))
 (define-fun nilptr () Ptr (mk-ptr 0 0))
 (declare-fun byteof (Int Int) Int)
+(declare-fun nlmul (Int Int) Int)
 (declare-fun streq (Slice Slice) Bool)
 (declare-fun elemref (Int Int) Int)
 (declare-fun elemref_reg (Int) Int)
@@ -75,20 +76,22 @@ type Obligation struct {
 }
 
 type Ctx struct {
-	fn          string
-	items       []string
-	obls        []*Obligation
-	n           int
-	declared    map[string]string // symbol -> sort
-	facts       map[string]bool   // dedupe ground facts
-	inputs      []string
-	sliceInputs []string        // byte-slice parameters whose leading bytes are requested in models
-	notes       map[string]bool // abstraction notes
-	kindCnt     map[string]int
-	weak        map[int]bool    // items that are only included in the second solving attempt (expensive facts)
-	onHavoc     func(st *State) // re-assume rely predicates after unknown code ran
-	inlineDepth int             // >0 while evaluating under a quantifier: no global definitions
-	qfacts      *[]Term         // collects facts while under a quantifier
+	fn            string
+	items         []string
+	obls          []*Obligation
+	n             int
+	declared      map[string]string // symbol -> sort
+	facts         map[string]bool   // dedupe ground facts
+	inputs        []string
+	sliceInputs   []string        // byte-slice parameters whose leading bytes are requested in models
+	notes         map[string]bool // abstraction notes
+	kindCnt       map[string]int
+	weak          map[int]bool     // items that are only included in the second solving attempt (expensive facts)
+	instantiators []func(idx Term) // assumed universal facts, instantiated at every index the code uses
+	instantiated  map[string]bool
+	onHavoc       func(st *State) // re-assume rely predicates after unknown code ran
+	inlineDepth   int             // >0 while evaluating under a quantifier: no global definitions
+	qfacts        *[]Term         // collects facts while under a quantifier
 }
 
 func (c *Ctx) assumeRaw(item string) { c.items = append(c.items, item) }
@@ -179,6 +182,36 @@ func (c *Ctx) weakFact(t Term) {
 	}
 	c.weak[len(c.items)] = true
 	c.items = append(c.items, "(assert "+t+")")
+}
+
+// mul: product of two terms. A product of two non-constant terms is written with the uninterpreted
+// symbol nlmul plus the ground fact nlmul(a,b) = a*b, so that equal operands give equal products by
+// congruence (the nonlinear arithmetic engines do not do that reliably) while the arithmetic meaning is kept.
+func (c *Ctx) mul(a, b Term) Term {
+	if isNumeral(a) || isNumeral(b) {
+		return app("*", a, b)
+	}
+	if b < a {
+		a, b = b, a
+	}
+	t := app("nlmul", a, b)
+	c.fact(eq(t, app("*", a, b)))
+	return t
+}
+
+func isNumeral(t Term) bool {
+	if strings.HasPrefix(t, "(- ") {
+		t = strings.TrimSuffix(t[3:], ")")
+	}
+	if t == "" {
+		return false
+	}
+	for _, ch := range t {
+		if ch < '0' || ch > '9' {
+			return false
+		}
+	}
+	return true
 }
 
 func (c *Ctx) note(s string) { c.notes[s] = true }
